@@ -419,7 +419,39 @@ func (c *Ctx) ruleW1() {
 			if k, ok := c.cacheGetKey(call); ok && call.Value() != nil {
 				gets = append(gets, call.Value())
 				getKeys = append(getKeys, k)
+				return
 			}
+			// the cache reads may sit in a helper that returns the decoded heads
+			h := call.Common().StaticCallee()
+			if h == nil || h.Blocks == nil || h.Pkg != f.Pkg || call.Value() == nil {
+				return
+			}
+			eachCall(h, func(ic ssa.CallInstruction) {
+				k, ok := c.cacheGetKey(ic)
+				if !ok || ic.Value() == nil {
+					return
+				}
+				dh := derived([]ssa.Value{ic.Value()}, flowOpts{throughCalls: true})
+				returned := false
+				eachInstr(h, func(in ssa.Instruction) {
+					if r, ok := in.(*ssa.Return); ok {
+						for _, v := range r.Results {
+							if dh[v] {
+								returned = true
+							}
+							for _, y := range resolveSpill(v) {
+								if dh[y] {
+									returned = true
+								}
+							}
+						}
+					}
+				})
+				if returned {
+					gets = append(gets, call.Value())
+					getKeys = append(getKeys, k)
+				}
+			})
 		})
 		for i, g := range gets {
 			d := derived([]ssa.Value{g}, flowOpts{throughCalls: true})
@@ -461,18 +493,12 @@ func (c *Ctx) ruleW1() {
 		}
 		// the message carries the store's own address
 		okAddr := false
-		eachInstr(f, func(in ssa.Instruction) {
-			s, ok := in.(*ssa.Store)
-			if !ok {
-				return
+		for _, av := range c.messageFieldValues(f, "Address") {
+			v := nf(av)
+			if strings.HasPrefix(v, "param:b") || strings.HasPrefix(v, "param:"+f.Params[0].Name()) {
+				okAddr = true
 			}
-			if fa, ok := s.Addr.(*ssa.FieldAddr); ok && fieldName(fa.X.Type(), fa.Field) == "Address" && strings.Contains(typeStr(fa.X.Type()), "MessageExchangeHeads") {
-				v := nf(s.Val)
-				if strings.HasPrefix(v, "param:b") || strings.HasPrefix(v, "param:"+f.Params[0].Name()) {
-					okAddr = true
-				}
-			}
-		})
+		}
 		if okAddr {
 			c.ok("W1", fk+"→message#address", f.Pos(), "the exchanged message names the store's own address")
 		} else {
@@ -550,25 +576,12 @@ func (c *Ctx) ruleW1() {
 		nPub++
 		fk := fnKey(f)
 		okAddr := false
-		headsFromEvent := false
-		eachInstr(f, func(in ssa.Instruction) {
-			s, ok := in.(*ssa.Store)
-			if !ok {
-				return
+		headsFromEvent := len(c.messageFieldValues(f, "Heads")) > 0
+		for _, av := range c.messageFieldValues(f, "Address") {
+			if strings.HasPrefix(nf(av), "param:"+f.Params[0].Name()) {
+				okAddr = true
 			}
-			fa, ok := s.Addr.(*ssa.FieldAddr)
-			if !ok || !strings.Contains(typeStr(fa.X.Type()), "MessageExchangeHeads") {
-				return
-			}
-			switch fieldName(fa.X.Type(), fa.Field) {
-			case "Address":
-				if strings.HasPrefix(nf(s.Val), "param:"+f.Params[0].Name()) {
-					okAddr = true
-				}
-			case "Heads":
-				headsFromEvent = true
-			}
-		})
+		}
 		if okAddr && headsFromEvent {
 			c.ok("W1", fk+"→Publish#message", pubs[0].Pos(), "the announcement carries the store's own address and the event's heads")
 		} else {
@@ -577,6 +590,42 @@ func (c *Ctx) ruleW1() {
 	}
 	c.floor("W1", "announcement publishers", nPub, 1)
 	_ = types.Typ
+}
+
+// messageFieldValues: the values stored into the given field of a heads message built by f,
+// or by a same-package function f calls with them (a parameter of that function stands for the
+// argument f passes).
+func (c *Ctx) messageFieldValues(f *ssa.Function, field string) []ssa.Value {
+	var out []ssa.Value
+	scan := func(g *ssa.Function, mapParam func(ssa.Value) ssa.Value) {
+		eachInstr(g, func(in ssa.Instruction) {
+			st, ok := in.(*ssa.Store)
+			if !ok {
+				return
+			}
+			fa, ok := st.Addr.(*ssa.FieldAddr)
+			if !ok || !strings.Contains(typeStr(fa.X.Type()), "MessageExchangeHeads") || fieldName(fa.X.Type(), fa.Field) != field {
+				return
+			}
+			out = append(out, mapParam(st.Val))
+		})
+	}
+	scan(f, func(v ssa.Value) ssa.Value { return v })
+	eachCall(f, func(call ssa.CallInstruction) {
+		h := call.Common().StaticCallee()
+		if h == nil || h.Blocks == nil || h.Pkg != f.Pkg || h == f {
+			return
+		}
+		scan(h, func(v ssa.Value) ssa.Value {
+			for i, p := range h.Params {
+				if v == ssa.Value(p) && i < len(call.Common().Args) {
+					return call.Common().Args[i]
+				}
+			}
+			return v
+		})
+	})
+	return out
 }
 
 // isLocalHeadKey: the key is persisted by a function that appends to the log.
